@@ -692,6 +692,35 @@ func c31Gen(rng *rand.Rand, tier string) []Case {
 		add("read2", true, fmt.Sprintf("read d:%s~j~%s|%s~j~%s", hexs("b.json"), c1, hexs("a.json"), c2))
 		add("read2", true, fmt.Sprintf("read d:%s~j~%s|%s~j~%s|%s~j~%s f:%s", hexs("10.json"), c1, hexs("2.json"), c2, hexs("z.txt"), f.name+"="+v1, c1))
 	}
+	// a source followed by directories that contribute nothing (empty, only non-.json, only a sub-directory):
+	// they must not act as a source (seeded C31-a reset EnableCompression there)
+	for _, f := range c31Fields {
+		var v1 string
+		switch f.kind {
+		case "str":
+			if strings.HasSuffix(f.name, "Raw") {
+				continue
+			}
+			v1 = "s" + hexs("x")
+		case "int":
+			v1 = "i5"
+		case "bool":
+			v1 = "b1"
+		case "tags":
+			v1 = "t61:31"
+		case "list":
+			v1 = "l78"
+		default:
+			continue
+		}
+		c1 := f.name + "=" + v1
+		add("read2", true, fmt.Sprintf("read f:%s d:", c1))
+		if f.kind == "bool" {
+			add("read2", true, fmt.Sprintf("read f:%s d:%s~j~%s", c1, hexs("z.txt"), c1))
+			add("read2", true, fmt.Sprintf("read d:%s~j~%s d:%s~s~-", hexs("a.json"), c1, hexs("sub.json")))
+			add("read2", true, fmt.Sprintf("read d:%s~j~%s d: f:-", hexs("a.json"), c1))
+		}
+	}
 	add("read2", false, "read")
 	add("read2", false, "read d:")
 	add("read2", false, "read m")
